@@ -74,6 +74,12 @@ theorem ext_scheduleReconnectLocked {b : Perm} (c : Ctx) : Ext b c (scheduleReco
   · exact (Ext.setSt b c _).trans ((Ext.setSt b _ _).trans (ext_sendLocal _ _ _ (by simp)))
   · exact Ext.setSt b c _
 
+theorem ext_deliver {b : Perm} (m : String) (c : Ctx) : Ext b c (deliver m c) := by
+  unfold deliver
+  split
+  · exact (Ext.upd b c _).trans (Ext.emit _ _ rfl)
+  · exact Ext.emit _ _ rfl
+
 theorem ext_sendMessageLocked {b : Perm} (F : Facts) (held : List String) (typ m : String) (c : Ctx)
     (h : F.deferMessageLock ∉ held) : Ext b c (sendMessageLocked F held typ m c) := by
   unfold sendMessageLocked
@@ -82,7 +88,7 @@ theorem ext_sendMessageLocked {b : Perm} (F : Facts) (held : List String) (typ m
     · exact ext_deferMessage F held m c h
     · exact Ext.refl b c
   · split
-    · exact Ext.emit _ _ rfl
+    · exact ext_deliver m c
     · dsimp only
       have h1 : Ext b c (if F.sendErrorDefers = true then deferMessage F held m c else c) := by
         split
@@ -172,6 +178,24 @@ theorem sound_undecodable {F : Facts} (h : F.sound = true) : F.readPumpSkipsUnde
 theorem sound_asserts {F : Facts} (h : F.sound = true) : F.filterUncheckedAsserts = 0 := by
   have h1 := sound_mem h (x := F.filterUncheckedAsserts == 0) (by simp [Facts.soundList])
   simpa using h1
+
+theorem sound_snapshot {F : Facts} (h : F.sound = true) : F.flushOverSnapshot = true :=
+  sound_mem h (by simp [Facts.soundList])
+
+/-- A dereference the model does not list is not among the extracted ones. -/
+theorem sound_not_deref {F : Facts} (h : F.sound = true) (d : String × String × String × String)
+    (hd : modelDerefs.contains d = false) : F.derefs.contains d = false := by
+  have h1 := sound_mem h (x := F.derefs.all (fun d => modelDerefs.contains d)) (by simp [Facts.soundList])
+  cases hc : F.derefs.contains d with
+  | false => rfl
+  | true =>
+    have hm : d ∈ F.derefs := List.contains_iff_mem.mp hc
+    have := List.all_eq_true.mp h1 d hm
+    rw [hd] at this
+    exact absurd this (by simp)
+
+theorem sound_details {F : Facts} (h : F.sound = true) : F.derefs.contains detailsRoomDeref = false :=
+  sound_not_deref h _ (by decide)
 
 /-- A message that passed `readPump`'s validation has every sub-object `requires` asks for. -/
 theorem requires_present {F : Facts} {m : ServerMessage} {t f : String}
@@ -319,16 +343,18 @@ theorem ext_foldSend {b : Perm} (F : Facts) (L : Locks F) (msgs : List String) (
     simp only [List.foldl_cons]
     exact (ext_sendMessageLocked F [F.sendLock] "message" x c (by simp [L.ds])).trans (ih _)
 
-theorem ext_flushPending {b : Perm} (F : Facts) (L : Locks F) (c : Ctx) : Ext b c (flushPending F c) := by
+theorem ext_flushPending {b : Perm} (F : Facts) (L : Locks F) (hf : F.flushOverSnapshot = true) (c : Ctx) :
+    Ext b c (flushPending F c) := by
   unfold flushPending
   dsimp only
   split
   · ext_tac
-  · refine Ext.comp (fun x => ext_foldSend F L _ x) ?_
+  · simp only [hf, Bool.not_true, Bool.false_and, Bool.false_eq_true, if_false]
+    refine Ext.comp (fun x => ext_foldSend F L _ x) ?_
     ext_tac
 
 theorem ext_processHello {b : Perm} (F : Facts) (L : Locks F) (hr : F.closeRechecksConn = true)
-    (m : ServerMessage) (c : Ctx) (he : m.type = "error" → m.error.isSome = true)
+    (hf : F.flushOverSnapshot = true) (m : ServerMessage) (c : Ctx) (he : m.type = "error" → m.error.isSome = true)
     (hh : m.type = "hello" → m.hello.isSome = true) : Ext b c (processHello F m c) := by
   unfold processHello
   extract_lets c1 H c2 c3
@@ -360,7 +386,7 @@ theorem ext_processHello {b : Perm} (F : Facts) (L : Locks F) (hr : F.closeReche
               · exact (h4.trans (ext_sendLocal _ _ c4 (by simp))).trans (Ext.upd b _ _)
               · exact h4
             exact h6.trans (ext_joinRoom F L hr H HH c6)
-        · exact (h3.trans (ext_sendLocal _ _ c3 (by simp))).trans (ext_flushPending F L _)
+        · exact (h3.trans (ext_sendLocal _ _ c3 (by simp))).trans (ext_flushPending F L hf _)
 
 /-! ### After the remote hello -/
 
@@ -448,7 +474,8 @@ theorem forwardEvent_no_crash {F : Facts} (ha : F.filterUncheckedAsserts = 0) (s
             · rfl
       · rfl
 
-theorem forward_no_crash {F : Facts} (ha : F.filterUncheckedAsserts = 0) (st : Fed) (m : ServerMessage)
+theorem forward_no_crash {F : Facts} (ha : F.filterUncheckedAsserts = 0)
+    (hd : F.derefs.contains detailsRoomDeref = false) (st : Fed) (m : ServerMessage)
     (P : Present F m) : (forward F st m).crash = none := by
   unfold forward
   dsimp only
@@ -469,7 +496,8 @@ theorem forward_no_crash {F : Facts} (ha : F.filterUncheckedAsserts = 0) (st : F
         have := P.error ht
         cases hu : m.error with
         | none => simp [hu] at this
-        | some e => rfl
+        | some e =>
+          simp only [hd, Bool.and_false, Bool.false_eq_true, if_false]
       · split
         · rename_i ht
           have := P.room ht
@@ -552,7 +580,9 @@ theorem ext_afterRead {b : Perm} (F : Facts) (c : Ctx) : Ext b c (afterRead F c)
     · exact (ext_lock [] F.sendLock c (by simp)).trans (ext_scheduleReconnectLocked _)
     · exact Ext.refl b c
   split
-  · exact (h1.trans (Ext.upd b c1 _)).trans (Ext.emit _ _ rfl)
+  · split
+    · exact h1
+    · exact (h1.trans (Ext.upd b c1 _)).trans (Ext.emit _ _ rfl)
   · exact h1.trans (Ext.upd b c1 _)
 
 /-- The permissions of a step: forwarding needs the completed hello, ending the session a "bye". -/
@@ -568,11 +598,11 @@ theorem ext_dispatch (F : Facts) (hs : F.sound = true) (m : ServerMessage) (c : 
   · split
     · rename_i ht
       exact ext_processWelcome F L hr m c (P.welcome ht)
-    · exact ext_processHello F L hr m c P.error P.hello
+    · exact ext_processHello F L hr (sound_snapshot hs) m c P.error P.hello
   · rename_i hn
     have hsome : c.st.hello.isSome = true := by
       cases h : c.st.hello <;> simp_all
-    have := ext_processMessage F L hr m c (forward_no_crash (sound_asserts hs) c.st m P)
+    have := ext_processMessage F L hr m c (forward_no_crash (sound_asserts hs) (sound_details hs) c.st m P)
     exact this.mono (by simp [permOf, hsome]) (by simp [permOf, hsome])
 
 theorem ext_onFrame (F : Facts) (hs : F.sound = true) (d : Dec) (c : Ctx) :
